@@ -20,8 +20,8 @@ def run(tier):
     #    specification's outgoing list; the other direction by serving every stored version
     #    re-written in another rendering of the documented format
     g = consts(Replicas={"r1", "r2", "r3"}, Tasks={"u1", "u2"}, Props={"p", "q"},
-               Vals={"a", "b", "c"}, MaxPending=5, MaxEdits=12, MaxChain=40, MaxLen=50,
-               EditKinds=kinds)
+               Vals={"a", "b", "c"}, BigVals={"b"}, MaxPending=5, MaxEdits=12, MaxChain=40,
+               MaxLen=50, EditKinds=kinds)      # "b" = 600 kB: syncs that span several versions
     n = 1200 if thorough else 120
     sch, _ = gen_schedules(wd, "gen-wire", g, simulate=n, depth=51)
     v.distinct += distinct_count(sch)
